@@ -39,6 +39,9 @@ for cap, cap2, tier in ((1, 1, 'quick'), (2, 3, 'quick'), (4, 3, 'quick'), (5, 5
                 props=['C19', 'C11'] + (['C14'] if pl and entry == 'proof_da_copy_clear' else []), tier=t, unwind=max(cap, cap2, 4) + 2, objbits=10, carriers=DA_CARRIERS,
                 case_key='DynamicArrayT<TransitionT<%s>,%d>+=<%d>' % ('int' if pl else 'void', cap, cap2))
 
+for alias, entry, enforce, replace in (('emplace', 'dfcc_da_emplace', ['da_emplace'], []), ('client', 'dfcc_da_client', [], ['da_emplace'])):
+    job(id='C19.dfcc.array4.%s' % alias, tu='tier_a/arrays.cpp', defs={'CAP': 4, 'CAP2': 3}, entry=entry, props=['C19', 'C11'], quick_for=['C19'], mode='dfcc', unwind=8, objbits=10, timeout=600,
+        dfcc={'contracts': 'contracts/array.spec', 'enforce': enforce, 'replace': replace}, carriers=[r'DynamicArrayT<.*>::emplace'], case_key='DynamicArrayT<TransitionT<void>,4> contract %s' % alias)
 # capacities at the boundary of the index type (uint8_t up to 255 items, wider from 256 on)
 for cap, tier in ((256, 'quick'), (255, 'thorough'), (257, 'thorough')):
     for entry in ('proof_da_init', 'proof_da_emplace_copy', 'proof_da_copy_clear'):        # (the bulk-append harness does not finish at this size)
